@@ -188,12 +188,26 @@ def classify(key, kind, what):
     return None, None
 
 
+def _entries(P, R, rule, loader=True):
+    """public entry points; one that was renamed or removed makes its part of the inventory undecided, not the whole rule"""
+    ents = []
+    for e in ENTRIES:
+        f = P.fn(e, required=False)
+        if f is None:
+            if R is not None:
+                R.undecided(rule, "entry:" + short(e), "entry point %s not found: what is reachable only from it is not inventoried" % e)
+        else:
+            ents.append(f)
+    if loader:
+        ents += [f for f in P.fns.values() if f.path.startswith("graphql_loader::") and f.no_mangle]
+        ents += P.trait_impls("nitrogql_printer::graphql_printer::GraphQLPrinter", "print_graphql")
+    return ents
+
+
 def r08a(P, R):
     from c07 import model
     g, ai = model(P)
-    ents = [P.fn(e) for e in ENTRIES]
-    ents += [f for f in P.fns.values() if f.path.startswith("graphql_loader::") and f.no_mangle]
-    ents += P.trait_impls("nitrogql_printer::graphql_printer::GraphQLPrinter", "print_graphql")
+    ents = _entries(P, R, "R08-a")
     reach = P.reachable(ents)
     R.count("entry_points", len(ents))
     R.count("reachable_functions", len(reach))
@@ -288,25 +302,39 @@ def r08a(P, R):
         R.count("class_" + c, v)
     R.floor("R08-a", "panic sites in reachable functions", n, 200)
     # the CHECKER class holds only where check dominates: CLI path yes (R03-g); loader path never checks
-    loader_emit = P.fn("graphql_loader::loader::emit_js")
-    lreach = P.reachable([loader_emit])
-    checks = [p for p in lreach if p.endswith("check_operation_document")]
-    R.check("R08-a", "loader-unknown-fragment", bool(checks),
-            "the loader validates documents before printing",
-            "the bundler loader prints JavaScript without running `check`: `...Missing` (a spread of an undefined fragment) reaches "
-            "`expect(\"fragment not found\")` in print_operation_runtime", loc=loader_emit.loc())
-    # CHECKER justifications that depend on fragment bodies being checked (R03-b)
-    cfd = P.fn("nitrogql_checker::operation_checker::check_fragment_definition")
-    css = P.fn("nitrogql_checker::operation_checker::check_selection_set")
-    R.check("R08-a", "checker-guarantee-covers-fragments", css.path in P.reachable([cfd]),
-            "fragment bodies are validated, so the printers' `Type system error` expects hold for them",
-            "the printers type every fragment definition, but `check` validates a fragment body only when an operation spreads it: an unused "
-            "`fragment G on Query { nope }` passes check and panics in generate (`Type system error`)", loc=cfd.loc())
+    loader_emit = P.fn("graphql_loader::loader::emit_js", required=False)
+    if loader_emit is None:
+        R.undecided("R08-a", "loader-unknown-fragment", "loader emit_js not found")
+    else:
+        lreach = P.reachable([loader_emit])
+        checks = [p for p in lreach if p.endswith("check_operation_document")]
+        R.check("R08-a", "loader-unknown-fragment", bool(checks),
+                "the loader validates documents before printing",
+                "the bundler loader prints JavaScript without running `check`: `...Missing` (a spread of an undefined fragment) reaches "
+                "`expect(\"fragment not found\")` in print_operation_runtime", loc=loader_emit.loc())
+    # CHECKER justifications that depend on fragment bodies being checked (R03-b): from the FragmentDefinition arm of
+    # check_operation_document, is a function that validates a SelectionSet against a type reachable?
+    entry = P.fn("nitrogql_checker::operation_checker::check_operation_document", required=False)
+    sel_checkers = [f for f in P.fns.values() if f.path.startswith("nitrogql_checker::operation_checker") and not f.derived and "::tests" not in f.path
+                    and any("SelectionSet" in t for t in f.sig_inputs) and any("TypeDefinition" in t or "Vec<nitrogql_error" in t or "CheckError" in t for t in f.sig_inputs)
+                    and "count_selection_set_fields" not in f.path]
+    frag_checkers = [f for f in P.fns.values() if f.path.startswith("nitrogql_checker::operation_checker") and not f.derived and "::tests" not in f.path
+                     and any("FragmentDefinition" in t and "HashMap" not in t for t in f.sig_inputs) and f.path != (entry.path if entry else "")]
+    if entry is None or not sel_checkers or not frag_checkers:
+        R.undecided("R08-a", "checker-guarantee-covers-fragments", "the fragment-definition checker / selection-set checker were not identified by signature")
+    else:
+        cfd = [f for f in frag_checkers if f.path in P.callees_of(entry)[0]] or frag_checkers
+        reach_f = P.reachable(cfd)
+        ok = any(f.path in reach_f for f in sel_checkers)
+        R.check("R08-a", "checker-guarantee-covers-fragments", ok,
+                "fragment bodies are validated, so the printers' `Type system error` expects hold for them",
+                "the printers type every fragment definition, but `check` validates a fragment body only when an operation spreads it: an unused "
+                "`fragment G on Query { nope }` passes check and panics in generate (`Type system error`)", loc=cfd[0].loc())
 
 
 def r08b(P, R):
     """recursion guards: every recursive cycle reachable from the entries is structural or guarded by a seen-set"""
-    ents = [P.fn(e) for e in ENTRIES]
+    ents = _entries(P, None, "R08-b", loader=False)
     reach = P.reachable(ents)
     cg = {p: [c for c in P.callgraph().get(p, ()) if c in reach] for p in reach}
     # Tarjan SCC
